@@ -1,6 +1,7 @@
 """C07 -- traffic goes to exactly the requested destination. Drivers: destenc (client encoder through a real
 session), destdec (server decoder read_socks_addr), udpinit (UDP initial request, names resolved through the
-cache), dns (histories on resolve_host_with_cache)."""
+cache), dns (histories on resolve_host_with_cache), dial (end to end: client encoder -> frames -> the real
+TcpProxyHandler -> resolver cache -> TcpStream::connect, observed at loopback listeners on 127.0.0.k:port)."""
 import ipaddress, socket
 from .base import *
 from .parsers_util import *
@@ -10,7 +11,9 @@ RULE = ("destenc: IPv4/IPv6 literals (several spellings), names of 1,2,63,254,25
         "lengths {1,2,63,254,255}, those ports, every 2-way split of short wires, random 1-5-way splits with empty chunks, "
         "byte-at-a-time, every truncation (open/closed stream), bad ATYP, length 0, invalid UTF-8, IP-literal names, names "
         "containing the UDP magic; dns: histories of requests/seeds/clears over localhost (system resolver) and seeded names "
-        "(1-3 addresses, ages inside and beyond the TTL), same host with different ports, other hosts in between. "
+        "(1-3 addresses, ages inside and beyond the TTL), same host with different ports, other hosts in between; dial: "
+        "end-to-end request histories (literals, localhost, seeded names) against listeners on distinct 127.0.0.k:port, "
+        "oracle: accepted (address, port) = requested. "
         "Non-trivial = history with >= 2 requests for one name with different ports, or a name of length >= 254, or IPv6, "
         "or a fragmented / truncated wire; distinct by sha256 of the case.")
 SIDE_LEMMAS = 3
@@ -25,7 +28,11 @@ TTL_MS = 60000
 
 
 def corpus_cases():
-    return corpus("C07")
+    cs = corpus("C07")
+    for c in cs:
+        if c.drv in ('dial',):
+            c.model = False      # end-to-end drivers have no model side (oracle only)
+    return cs
 
 
 def host_class(host):
@@ -199,7 +206,59 @@ def gen_cases(tier, seed):
                 nreq.setdefault(nm, set()).add(ops[-1])
         nt = any(len(v) >= 2 for v in nreq.values())
         dns(ops, "dns-history", nt)
+    # ------------------------------------------------------------ end to end: decoder + resolver cache + dial
+    names = [b"svc.test", b"db.internal", rname(r, 63)]
+    def dial(toks, kind):
+        add("dial", toks, kind, True, model=False)
+    nm = hx(b"svc.test")
+    dial(["L:2:0", "L:2:1", "S:%s:2:0:0" % nm, "R:%s:1" % nm, "R:%s:0" % nm, "R:%s:1" % nm], "dial-d5")
+    dial(["L:1:0", "L:1:1", "R:%s:0" % lh, "R:%s:1" % lh, "R:%s:0" % lh], "dial-localhost")
+    dial(["L:2:0", "L:3:0", "L:3:1", "R:@2:0", "R:@3:1", "R:@3:0", "R:@2:1"], "dial-literal")
+    for i in range(24 if quick else 400):
+        ks = r.sample([2, 3, 4, 5], r.randint(1, 3))
+        toks = []
+        for k in ks:
+            for slot in range(3):
+                if r.random() < 0.7:
+                    toks.append("L:%d:%d" % (k, slot))
+        ops = []
+        for _ in range(r.randint(2, 6)):
+            x = r.random()
+            nmx = r.choice(names)
+            if x < 0.35:
+                ops.append("S:%s:%d:%d:%d" % (hx(nmx), r.choice(ks), r.randint(0, 2), r.choice([0, 0, 1000, TTL_MS + 5000])))
+            elif x < 0.5:
+                ops.append("R:@%d:%d" % (r.choice(ks + [6]), r.randint(0, 2)))
+            else:
+                ops.append("R:%s:%d" % (hx(nmx), r.randint(0, 2)))
+        dial(toks + ops, "dial-history")
     return cs
+
+
+def ref_dial(args):
+    listeners, seeds, out = set(), {}, []
+    for a in args:
+        f = a.split(":")
+        if f[0] == "L":
+            listeners.add((int(f[1]), int(f[2])))
+    for a in args:
+        f = a.split(":")
+        if f[0] == "S":
+            seeds[unhx(f[1])] = (int(f[2]), int(f[4]))
+        elif f[0] == "R":
+            slot = int(f[2])
+            if f[1].startswith("@"):
+                k = int(f[1][1:])
+            else:
+                name = unhx(f[1])
+                if name == b"localhost":
+                    k = 1
+                elif name in seeds and seeds[name][1] < TTL_MS - 1500:
+                    k = seeds[name][0]
+                else:
+                    k = None
+            out.append("OK %d:%d" % (k, slot) if (k, slot) in listeners else "ERR")
+    return " ".join(out)
 
 
 def parse_ok(tokens):
@@ -250,6 +309,9 @@ def oracle(c, ir):
         else:
             ok = canon_dest_pair(dest_tok(kind, val), addr)
         return None if ok else "address decoded as %s, sent %s" % (addr[:80], dest_tok(kind, val)[:80])
+    if c.drv == "dial":
+        exp = ref_dial(c.args)
+        return None if ir.strip() == exp else "dialled %s, requested %s (case: %s)" % (ir.strip(), exp, " ".join(c.args)[:300])
     if c.drv == "dns":
         tbl = {}
         if c.args[0] != "-":
